@@ -247,6 +247,9 @@ func (c *conn) send(ctx context.Context, msg *kmip.RequestMessage) error {
 //   - error: An error if the context is canceled, the connection is closed, or another issue occurs.
 func (c *conn) recv(ctx context.Context) (*kmip.ResponseMessage, error) {
 	if err := c.checkAvailable(ctx); err != nil {
+		// The request has been sent already and its response may still arrive:
+		// the connection cannot be used for another exchange.
+		_ = c.terminate(io.ErrClosedPipe)
 		return nil, err
 	}
 	select {
